@@ -28,7 +28,7 @@ RULE = ("scenario = (compress|decompress, -k or not, small or multi-block input,
         "or 4 or death by the injected signal); SIGKILL: input intact or complete output present; an injected unlink error "
         "may leave both files; no other file may appear; non-trivial = fault strictly between output creation and input "
         "removal; distinct by (scenario, op, position, fault)")
-TIMEOUT = 60
+TIMEOUT = 30
 OPS = ["read", "write", "close", "open", "unlink", "fchown", "fchmod", "futimens"]
 ERR_FOR = {"read": ["EIO"], "write": ["EIO", "ENOSPC", "EDQUOT", "EFBIG"], "close": ["EIO"], "open": ["EACCES"],
            "unlink": ["EPERM"], "fchown": ["EPERM"], "fchmod": ["EPERM"], "futimens": ["EPERM"]}
